@@ -113,14 +113,15 @@ func c15r3(c *Ctx) {
 		c.VisitGraph(f)
 		for _, sink := range sinks {
 			ob := c.Ob(f, "credit-equals-revision-amount:"+sink.Fn.Name(), sink.Pos())
-			deposits := sink.Expr.Args[0]
+			// the list handed to the sink, looked through a final whole copy out of a helper's result
+			deposits := lvalueCopySource(f, sink.Expr.Args[0])
 			rev := f.ObjOf(sink.Expr.Args[2])
 			k, _ := tupleDef(f, rev)
 			if rev == nil || k == nil || !isCoreConstructor(f.Callee(k)) || len(k.Args) < 2 {
 				ob.Bad(nil, "the revision credited with is not built by a core ReviseForFundAccounts/ReviseForReplenish call")
 				continue
 			}
-			sum := f.ObjOf(k.Args[len(k.Args)-1])
+			sum := copySource(f, f.ObjOf(k.Args[len(k.Args)-1]))
 			if sum == nil {
 				ob.Bad(nil, "the amount given to %s is not a local accumulator", f.Callee(k).Name())
 				continue
